@@ -150,3 +150,43 @@ func init() {
 		Stubs:   stubsCommon,
 	})
 }
+
+func init() {
+	register(&CheckDef{
+		ID:    "C10",
+		Title: "Iterators, ListKeys and Fold enumerate a sorted, complete, stable snapshot",
+		Reach: []string{"done", "seek", "rewind-later", "two-or-more", "late-write"},
+		Jobs: func(tier string) []JobSpec {
+			var js []JobSpec
+			add := func(name string, params map[string]int64, maxPaths int) {
+				js = append(js, JobSpec{Name: name, Harness: "root", Func: "verifHarnessC10", Params: params, Scale: scaleDF(32), MaxPaths: maxPaths})
+			}
+			if tier == "quick" {
+				for idx := 1; idx <= 3; idx++ {
+					add(fmt.Sprintf("%s-s2-fwd", idxName[idx]), p("calls", 3, "pool", 3, "klen", 1, "index", idx, "shards", 2, "prefix", 0, "latewrites", 0), 0)
+				}
+				add("btree-s2-rev-late", p("calls", 3, "pool", 2, "klen", 1, "index", 1, "shards", 2, "reverse", 1, "latewrites", 1), 0)
+				add("hashmap-s3-prefix", p("calls", 2, "pool", 2, "klen", 2, "index", 3, "shards", 3, "prefix", 1), 0)
+				add("skiplist-s1-rev", p("calls", 3, "pool", 3, "klen", 1, "index", 2, "shards", 1, "reverse", 1), 0)
+			} else {
+				for idx := 1; idx <= 3; idx++ {
+					for _, rev := range []int{0, 1} {
+						add(fmt.Sprintf("%s-s2-rev%d-c4", idxName[idx], rev), p("calls", 4, "pool", 3, "klen", 1, "index", idx, "shards", 2, "reverse", rev, "latewrites", 1), 0)
+						add(fmt.Sprintf("%s-s3-rev%d-prefix", idxName[idx], rev), p("calls", 3, "pool", 2, "klen", 2, "index", idx, "shards", 3, "reverse", rev, "prefix", 1), 0)
+					}
+					add(fmt.Sprintf("%s-s1-pool4", idxName[idx]), p("calls", 3, "pool", 4, "klen", 1, "index", idx, "shards", 1), 0)
+				}
+			}
+			js = append(js, JobSpec{Name: "witness", Harness: "root", Func: "verifHarnessC10", Params: p("calls", 1, "pool", 1, "klen", 1, "index", 3, "shards", 1, "witness", 1), Scale: scaleDF(32), Witness: true})
+			return js
+		},
+		Assumptions: []string{"usage protocol: the first positioning call on a new iterator is Rewind or Seek", "every Seek target lies at or ahead of the cursor in iteration order (the property's own restriction); no Seek on an exhausted iterator",
+			"xxhash placement of symbolic keys is an uninterpreted function (any placement, incl. all in one shard)"},
+		Bounds: map[string]string{
+			"quick":    "pool of 2-3 symbolic keys (1-2 bytes), each absent / present / put-then-deleted; 2-3 calls over {Rewind, Seek(symbolic target), Next}; forward and reverse; optional 1-byte symbolic prefix; one late Put/Delete; every index type; ShardNum 1-3",
+			"thorough": "3-4 calls, pool 3-4, both directions for every index type, prefix with 2-byte keys, late writes",
+		},
+		Outside: "more than 4 keys / 4 calls; backward seeks (deliberately not claimed); concurrent writers during iteration (C09)",
+		Stubs:   stubsCommon,
+	})
+}
